@@ -31,6 +31,22 @@ func realNode(o Outcome) *sx.Node {
 
 // RunVariants draws tables and requests, builds the variants, runs everything on the real code and the driver.
 func RunVariants(seed uint64, nCfg, perCfg int, o Opts, mk func(r *rng.R, cfg Config, reqs []Req) []Variant) ([]*PairCase, error) {
+	return runVariants(seed, nCfg, perCfg, o, nil, mk)
+}
+
+// Table is a given table with given requests (RunVariantsOn).
+type Table struct {
+	Cfg  Config
+	Reqs []Req
+}
+
+// RunVariantsOn is RunVariants on given tables instead of generated ones: the search around a case on
+// which model and implementation disagree uses it to hold the pair property against that very table.
+func RunVariantsOn(seed uint64, tables []Table, o Opts, mk func(r *rng.R, cfg Config, reqs []Req) []Variant) ([]*PairCase, error) {
+	return runVariants(seed, len(tables), 0, o, tables, mk)
+}
+
+func runVariants(seed uint64, nCfg, perCfg int, o Opts, given []Table, mk func(r *rng.R, cfg Config, reqs []Req) []Variant) ([]*PairCase, error) {
 	base := rng.New(seed)
 	var lines []string
 	var all []*Case
@@ -49,7 +65,12 @@ func RunVariants(seed uint64, nCfg, perCfg int, o Opts, mk func(r *rng.R, cfg Co
 	}
 	for ci := 0; ci < nCfg; ci++ {
 		r := base.Fork(uint64(ci))
-		cfg := GenConfig(r, o)
+		var cfg Config
+		if given != nil {
+			cfg = given[ci].Cfg
+		} else {
+			cfg = GenConfig(r, o)
+		}
 		cont, err := Build(cfg)
 		if err != nil {
 			if strings.Contains(err.Error(), "multiple registrations") {
@@ -59,9 +80,14 @@ func RunVariants(seed uint64, nCfg, perCfg int, o Opts, mk func(r *rng.R, cfg Co
 			return nil, fmt.Errorf("config %d does not build: %v", ci, err)
 		}
 		reqs := make([]Req, perCfg)
-		for i := range reqs {
-			reqs[i] = GenReq(r, o, cfg)
+		if given != nil {
+			reqs = given[ci].Reqs
+		} else {
+			for i := range reqs {
+				reqs[i] = GenReq(r, o, cfg)
+			}
 		}
+		perCfg := len(reqs)
 		cfgLine := sx.K("cfg", sx.N(ci), cfg.Sx()).String()
 		lines = append(lines, cfgLine)
 		baseCases := make([]*Case, perCfg)
